@@ -48,6 +48,7 @@ def run(chk):
 
     # C01.e RIP-relative displacements are relative to the end of the instruction (shared with C03/C04)
     pcrel.run(chk, emit, UNIT)
+    pcrel.run_position(chk, emit, UNIT)
 
     # C01.b rows vs database
     try:
